@@ -29,7 +29,7 @@ import (
 	"pgregory.net/rapid"
 )
 
-var vfC12Shapes = []string{"restart", "restart", "chain", "loop", "dname-pingpong", "glueless-cycle", "deeper", "lame-refused", "lame-servfail", "lame-silent", "self-referral", "nxns-victim", "nxns-cycle",
+var vfC12Shapes = []string{"restart", "restart", "chain", "loop", "dname-pingpong", "glueless-cycle", "deeper", "ns-chain", "ns-chain", "lame-refused", "lame-servfail", "lame-silent", "self-referral", "nxns-victim", "nxns-cycle",
 	"tc-forever", "big-answer", "many-sigs", "many-keys", "slow", "garbage", "honest"}
 
 type vfC12Step struct {
@@ -51,6 +51,7 @@ type vfC12Case struct {
 	W         *vfworld.World
 	SecondAsk bool // ask every question a second time from another client
 	Multi     bool // delegations with three and four addresses
+	V6        bool // ipv6access on: every delegation learned without AAAA glue starts a detached address-enrichment job
 }
 
 // vfC12InternalCap is where the harness stops a request tree that keeps starting internal sub-queries, so that a
@@ -86,6 +87,7 @@ func vfC12Gen(rt *rapid.T) *vfC12Case {
 	// the shadow-vs-off comparison needs a deterministic resolver: one address per delegation
 	c.Multi = c.Mode != "shadow" && rapid.IntRange(0, 2).Draw(rt, "multi") != 0
 	c.W = vfC12World(c.Multi)
+	c.V6 = rapid.Bool().Draw(rt, "ipv6access")
 	n := rapid.IntRange(1, 4).Draw(rt, "nsteps")
 	for i := 0; i < n; i++ {
 		sh := rapid.SampledFrom(vfC12Shapes).Draw(rt, "shape")
@@ -269,6 +271,32 @@ func vfC12Script(c *vfC12Case, w *vfworld.World) func(p vfworld.Packet, n int, r
 					resp.Extra[0].(*dns.A).A = net.ParseIP(evilIP).To4()
 				}
 			}
+		case "ns-chain":
+			// every question is first answered with a referral that names a fresh name server (IPv4 glue only) inside a
+			// fresh child zone, and the second time with the data (or none): whoever looks up that name server's other
+			// addresses is handed the next fresh delegation
+			k := 0
+			for _, l := range labels {
+				if strings.HasPrefix(l, "r") {
+					fmt.Sscanf(l, "r%d", &k)
+				}
+			}
+			key := fmt.Sprintf("%s/%d", name, q.Qtype)
+			cut := zone
+			if k > 0 {
+				cut = fmt.Sprintf("r%d.%s", k, zone)
+			}
+			switch {
+			case depth[key] == 0 && strings.HasSuffix(name, "."+cut):
+				depth[key] = 1
+				host := fmt.Sprintf("ns.r%d.%s", k+1, zone)
+				referral([]dns.RR{a(host, 0)}, ns(cut, host))
+				resp.Extra[0].(*dns.A).A = net.ParseIP(evilIP).To4()
+			case q.Qtype == dns.TypeA:
+				answer(a(name, 6))
+			default:
+				answer()
+			}
 		case "deeper":
 			// every time a name is asked, delegate one label further down, to ourselves
 			d := depth[name] + 1
@@ -338,6 +366,7 @@ func vfC12Config(dir string, c *vfC12Case) *config.Config {
 	cfg.QnameMinLevel = c.QMin
 	cfg.RecursionFirewall = config.RecursionFirewallConfig{Mode: config.RecursionFirewallMode(c.Mode), MaxOutboundQueries: c.MaxOut, MaxInternalQueries: c.MaxInt, MaxSignatureChecks: c.MaxSig}
 	cfg.RecursionFirewall.Normalize()
+	cfg.IPv6Access = c.V6
 	return cfg
 }
 
@@ -346,6 +375,8 @@ type vfC12Obs struct {
 	NoReply    bool
 	Replies    int
 	Packets    int
+	AtReply    int // upstream packets sent by the time the reply was written (detached helpers come later)
+	Late       int // upstream packets between 60 s and 90 s after the reply
 	Elapsed    time.Duration
 	EDE        string
 	Sig, DS    int64
@@ -382,11 +413,19 @@ func vfC12Run(t *testing.T, dir string, c *vfC12Case, mode string) (obs []vfC12O
 			internal.Store(0)
 			t0 := time.Now()
 			rep := rw.Ask(q, "udp", net.IPv4(203, 0, 113, client), false)
-			o := vfC12Obs{Elapsed: time.Since(t0), Replies: len(rep.Writes), NoReply: rep.Msg == nil, Rcode: -1}
+			o := vfC12Obs{Elapsed: time.Since(t0), Replies: len(rep.Writes), NoReply: rep.Msg == nil, Rcode: -1, AtReply: rw.Net.Count() - n0}
 			// let detached helpers and abandoned attempts run out, then count what the request tree cost
 			time.Sleep(25 * time.Second)
 			synctest.Wait()
 			o.Packets = rw.Net.Count() - n0
+			// ... and then it has to be over: a reply within the 10 s query timeout, helpers that start within 2 s of a
+			// delegation and run for at most 30 s - a minute after the reply nothing may still be asking on its behalf
+			time.Sleep(35 * time.Second)
+			synctest.Wait()
+			n1 := rw.Net.Count()
+			time.Sleep(30 * time.Second)
+			synctest.Wait()
+			o.Late = rw.Net.Count() - n1
 			o.Internal = internal.Load()
 			o.Aborted = o.Internal > vfC12InternalCap
 			k1 := verifhook.Counts()
@@ -433,7 +472,7 @@ func TestVerifC12Budget(t *testing.T) {
 		c := vfC12Gen(rt)
 		obs, trace := vfC12Run(t, dir, c, c.Mode)
 		bad := func(f string, a ...any) {
-			rt.Fatalf("%s\n  mode=%s budgets: outbound=%d internal=%d signatures=%d  n=%d qmin=%d\n  history:\n    %s", fmt.Sprintf(f, a...), c.Mode, c.MaxOut, c.MaxInt, c.MaxSig, c.N, c.QMin, strings.Join(trace, "\n    "))
+			rt.Fatalf("%s\n  mode=%s ipv6access=%v budgets: outbound=%d internal=%d signatures=%d  n=%d qmin=%d\n  history:\n    %s", fmt.Sprintf(f, a...), c.Mode, c.V6, c.MaxOut, c.MaxInt, c.MaxSig, c.N, c.QMin, strings.Join(trace, "\n    "))
 		}
 		var steps []vfC12Step
 		for _, st := range c.Steps {
@@ -456,6 +495,8 @@ func TestVerifC12Budget(t *testing.T) {
 				bad("question %d (%s): the reply took %s; the query timeout is 10s", i, st.Shape, o.Elapsed)
 			case o.Packets > 1500:
 				bad("question %d (%s): %d upstream packets for one client question", i, st.Shape, o.Packets)
+			case o.Late > 0:
+				bad("question %d (%s): %d upstream packets were sent between 60 s and 90 s after the reply: the work done for one client question does not end", i, st.Shape, o.Late)
 			case o.Aborted:
 				bad("question %d (%s): more than %d internal sub-queries were started for one client question (the harness cut it off there)", i, st.Shape, vfC12InternalCap)
 			}
@@ -478,7 +519,7 @@ func TestVerifC12Budget(t *testing.T) {
 					if c.SecondAsk && i%2 == 0 && i+1 < len(obs) && obs[i+1].Packets == 0 && obs[i+1].Rcode == dns.RcodeServerFailure {
 						bad("question %d (%s): the over-budget SERVFAIL of one client was served to the next client without any new work", i, st.Shape)
 					}
-				} else if o.Rcode == dns.RcodeServerFailure && st.EDNS && o.Packets >= int(c.MaxOut) && o.EDE == "" {
+				} else if o.Rcode == dns.RcodeServerFailure && st.EDNS && o.AtReply >= int(c.MaxOut) && o.EDE == "" {
 					bad("question %d (%s): the outbound budget was used up and the SERVFAIL to an EDNS client carries no Extended DNS Error", i, st.Shape)
 				}
 			} else if o.OverLimit {
@@ -489,12 +530,15 @@ func TestVerifC12Budget(t *testing.T) {
 				bad("question %d (%s): a SERVFAIL caused by this request's own attempt limit (%q) was served to the next client without any new work", i, st.Shape, o.EDE)
 			}
 			vfstat.Class(U, "shape:"+st.Shape)
+			if c.V6 && st.Shape == "ns-chain" {
+				vfstat.Class(U, "detached-enrichment-chain")
+			}
 		}
 		// shadow mode: replies identical to firewall-off
 		twin := false
 		stateless := true
 		for _, st := range c.Steps {
-			if st.Shape == "deeper" || st.Shape == "restart" || st.Shape == "garbage" {
+			if st.Shape == "deeper" || st.Shape == "restart" || st.Shape == "garbage" || st.Shape == "ns-chain" {
 				stateless = false // these authorities answer by how often they were asked
 			}
 		}
@@ -550,7 +594,7 @@ func TestVerifC12Debug(t *testing.T) {
 	if shape == "" {
 		shape = "loop"
 	}
-	c := &vfC12Case{Mode: map[bool]string{true: os.Getenv("VERIF_MODE"), false: "enforce"}[os.Getenv("VERIF_MODE") != ""], MaxOut: 128, MaxInt: 32, MaxSig: 32, N: n, W: vfC12World(true), SecondAsk: true,
+	c := &vfC12Case{Mode: map[bool]string{true: os.Getenv("VERIF_MODE"), false: "enforce"}[os.Getenv("VERIF_MODE") != ""], MaxOut: 128, MaxInt: vfC12EnvInt("VERIF_MAXINT", 32), MaxSig: 32, N: n, W: vfC12World(true), SecondAsk: true,
 		Steps: []vfC12Step{{Shape: shape, Name: "c0.q0." + shape + "." + vfC12Evil, Qtype: dns.TypeA, EDNS: true}}}
 	if os.Getenv("VERIF_SEQ") != "" {
 		var ls []string
@@ -564,4 +608,10 @@ func TestVerifC12Debug(t *testing.T) {
 	t0 := time.Now()
 	_, trace := vfC12Run(t, t.TempDir(), c, c.Mode)
 	t.Logf("wall %s\n%s", time.Since(t0), strings.Join(trace, "\n"))
+}
+
+func vfC12EnvInt(name string, def uint32) uint32 {
+	v := def
+	fmt.Sscanf(os.Getenv(name), "%d", &v)
+	return v
 }
